@@ -1,11 +1,59 @@
-/- Oracle operations, group Bip39 (see /verif/CONVENTIONS.md). -/
+/- Oracle operations, group Bip39 (C14; see /verif/CONVENTIONS.md and harness/bip39.go).
+
+   A mnemonic argument is `.` (no words), `-` (one empty word) or the hex of the words joined by
+   single spaces; both sides split it at every 0x20 byte (`strings.Split(s, " ")`) — the library
+   itself never splits: `DecodeWords`/`DeriveSeed` take the slice of words. -/
 import BtcVerif.Oracle.Util
+import BtcVerif.Model.Bip39
+import BtcVerif.Spec.Bip39
 
 namespace BtcVerif.Oracle
-open BtcVerif
+open BtcVerif BtcVerif.Model.Bip39
+
+/-- `strings.Split(s, " ")` on bytes -/
+def splitSpaces (bs : Bytes) : List Bytes :=
+  let r := bs.foldr (fun b (acc : Bytes × List Bytes) =>
+    if b == 0x20 then ([], acc.1 :: acc.2) else (b :: acc.1, acc.2)) ([], [])
+  r.1 :: r.2
+
+def parseMnemonic (s : String) : Option (List Bytes) :=
+  if s == "." then some [] else (parseHex s).map splitSpaces
+
+def mnemonicStr (ws : List Bytes) : String :=
+  if ws.isEmpty then "." else hexOf (joinWords ws)
+
+/-- the independent copy of the word list, as bytes -/
+def specWordList : List Bytes := Spec.Bip39.wordList.map utf8
+
+/-- `bip39.enc`: the model's answer, cross-checked against the bit-level reference encoding of
+    `Spec/Bip39.lean` over the pinned copy of the word list -/
+def encAnswer (entropy : Bytes) : String :=
+  let ref := Spec.Bip39.encode specWordList Prim.sha256 entropy
+  match encodeGo entropy, ref with
+  | .ok ws, some ws' => if ws == ws' then "ok " ++ mnemonicStr ws else "model-differs-from-reference"
+  | .err, none => "err"
+  | .panic, _ => "panic"
+  | _, _ => "model-differs-from-reference"
 
 def opBip39 (op : String) (args : List String) : Option String :=
   match op, args with
+  | "bip39.enc", [e] => do
+    let entropy ← parseHex e
+    some (encAnswer entropy)
+  | "bip39.dec", [m] => do
+    let ws ← parseMnemonic m
+    some (outcomeStr hexOf (decodeGo ws))
+  | "bip39.seed", [m, p] => do
+    let ws ← parseMnemonic m
+    let pass ← parseHex p
+    some ("ok " ++ hexOf (deriveSeedGo ws pass))
+  | "bip39.gen", [n, r] => do
+    let nWords ← n.toInt?
+    let rand ← parseHex r
+    some (outcomeStr mnemonicStr (generateMnemonic wordList sha256First rand nWords))
+  | "bip39.pin", [] =>
+    let txt := Spec.Bip39.wordList.flatMap fun w => utf8 w ++ [0x0a]
+    some s!"ok {hexOf (Prim.sha256 txt)} {Spec.Bip39.wordList.length}"
   | _, _ => none
 
 end BtcVerif.Oracle
